@@ -1,5 +1,5 @@
 ------------------------------- MODULE MC_C20 -------------------------------
-EXTENDS ImplTrunc
+EXTENDS ImplTrunc, Json
 CONSTANTS Shapes, AllowKnownClass
 MkP(mm, n, s) ==
   LET dt == CalOf(mm, n) IN
@@ -28,6 +28,8 @@ Init ==
        /\ p0 = MkP(m, DayNumCal(m, st[1], st[2], st[3]), s)
   /\ day = LocalDay(m, p0) /\ sod = p0.sod /\ phase = "s" /\ steps = 0
 Spec == Init /\ [][Next]_vars
+EmitGen == steps = 0 => PrintT(<<"GEN", ToJson(<<m, t.hh, t.mi, t.ss, t.dom, t.doy, t.dow, t.woy, p0.y, p0.a, p0.b, p0.sod>>)>>)
+OnlyInit == steps = 0
 Off == FALSE
 On == TRUE
 =============================================================================
